@@ -57,6 +57,7 @@ def _worker(modname, part, q):
             per_path=part.get("per_path", 30.0),
             max_failures=part.get("max_failures", 8),
             max_paths=part.get("max_paths"),
+            max_fail_paths=part.get("max_fail_paths", 30),
         )
         from sx.trace import functions_seen
 
